@@ -64,6 +64,8 @@ def euler_matrix(phi, theta=None, psi=None):
             psi = 0.0
         theta = np.array(theta, dtype=float, copy=False, ndmin=1)
         psi = np.array(psi, dtype=float, copy=False, ndmin=1)
+        # Make sure that all matrix entries have the same (broadcast) shape
+        phi, theta, psi = np.broadcast_arrays(phi, theta, psi)
         ndim = 3
 
     cph = np.cos(phi)
@@ -84,9 +86,9 @@ def euler_matrix(phi, theta=None, psi=None):
             [sph * cps + cph * cth * sps,
              -sph * sps + cph * cth * cps,
              -cph * sth],
-            [sth * sps + 0 * cph,
-             sth * cps + 0 * cph,
-             cth + 0 * (cph + cps)]])  # Make sure all components broadcast
+            [sth * sps,
+             sth * cps,
+             cth]])
 
     if squeeze_out:
         return mat.squeeze()
